@@ -31,8 +31,10 @@ enum GOpt {
     TwoLifetimes,
     /// a type parameter called `H` (the name the standard Hash signature uses for its own parameter)
     ParamH,
+    /// lifetime parameters with inline outlives bounds: `<'a, 'b: 'a, T: 'b>` with fields `&'b T` and `&'a u8`
+    Outlives,
 }
-const GOPTS: [GOpt; 12] = [GOpt::None, GOpt::T, GOpt::LifetimeT, GOpt::ConstN, GOpt::DefaultT, GOpt::WhereT, GOpt::UnsizedTail, GOpt::Float, GOpt::Assoc, GOpt::ConstLikeType, GOpt::TwoLifetimes, GOpt::ParamH];
+const GOPTS: [GOpt; 13] = [GOpt::None, GOpt::T, GOpt::LifetimeT, GOpt::ConstN, GOpt::DefaultT, GOpt::WhereT, GOpt::UnsizedTail, GOpt::Float, GOpt::Assoc, GOpt::ConstLikeType, GOpt::TwoLifetimes, GOpt::ParamH, GOpt::Outlives];
 
 #[derive(Clone, Copy, PartialEq, Eq, Debug)]
 enum Naming {
@@ -93,7 +95,7 @@ fn applicable(c: &Case) -> Vec<&'static str> {
     match c.gopt {
         GOpt::UnsizedTail => v.retain(|t| !matches!(*t, "Copy" | "Clone" | "Default")),
         GOpt::Float => v.retain(|t| !matches!(*t, "Eq" | "Ord" | "Hash")),
-        GOpt::LifetimeT | GOpt::ConstN | GOpt::ConstLikeType | GOpt::TwoLifetimes => v.retain(|t| *t != "Default"),
+        GOpt::LifetimeT | GOpt::ConstN | GOpt::ConstLikeType | GOpt::TwoLifetimes | GOpt::Outlives => v.retain(|t| *t != "Default"),
         _ => {}
     }
     v
@@ -142,6 +144,11 @@ fn field_ty(c: &Case, vi: usize, fi: usize) -> (&'static str, Vec<&'static str>)
             0 => ("&'a T", vec!["&0u8", "&1u8"]),
             _ => ("&'b T", vec!["&0u8", "&1u8"]),
         },
+        GOpt::Outlives => match (vi + fi) % 3 {
+            0 => ("&'b T", vec!["&0u8", "&1u8"]),
+            1 => ("&'a u8", vec!["&0u8", "&1u8"]),
+            _ => ("u8", vec!["0u8", "1u8"]),
+        },
         GOpt::ConstLikeType => match (vi + fi) % 2 {
             0 => ("[u8; Option]", vec!["[0u8, 1]", "[1u8, 0]"]),
             _ => ("u8", vec!["0u8", "1u8"]),
@@ -163,6 +170,7 @@ fn generics_of(g: GOpt) -> (&'static str, &'static str, &'static str) {
         GOpt::ConstLikeType => ("<const Option: usize>", "", "<2>"),
         GOpt::TwoLifetimes => ("<'a, 'b, T>", "", "<'static, 'static, u8>"),
         GOpt::ParamH => ("<H>", "", "<u8>"),
+        GOpt::Outlives => ("<'a, 'b: 'a, T: 'b>", "", "<'static, 'static, u8>"),
     }
 }
 
@@ -184,6 +192,7 @@ fn uses_all_params(c: &Case) -> bool {
         GOpt::ConstLikeType => tys.contains(&"[u8; Option]"),
         GOpt::TwoLifetimes => tys.contains(&"&'a T") && tys.contains(&"&'b T"),
         GOpt::ParamH => tys.iter().any(|t| t.contains('H')),
+        GOpt::Outlives => tys.contains(&"&'b T") && tys.contains(&"&'a u8"),
     }
 }
 
